@@ -2205,10 +2205,13 @@ func (gs *GossipSubRouter) piggybackControl(p peer.ID, out *RPC, ctl *pb.Control
 }
 
 func (gs *GossipSubRouter) makePrune(p peer.ID, topic string, doPX bool, isUnsubscribe bool) *pb.ControlPrune {
-	if !gs.feature(GossipSubFeaturePX, gs.peers[p]) {
+	if proto, known := gs.peers[p]; known && !gs.feature(GossipSubFeaturePX, proto) {
 		// GossipSub v1.0 -- no peer exchange, the peer won't be able to parse it anyway
 		return &pb.ControlPrune{TopicID: &topic}
 	}
+	// When the protocol is not known yet (the PRUNE answers a GRAFT that arrived
+	// before our outbound stream was negotiated) state the backoff: a v1.1+ peer
+	// needs it, and an older peer skips the unknown field.
 
 	backoff := uint64(gs.params.PruneBackoff / time.Second)
 	if isUnsubscribe {
